@@ -39,9 +39,11 @@ var (
 	flagChild   = flag.String("child", "", "internal: run as child of the given suite")
 	flagJournal = flag.String("journal", "", "internal: journal file")
 	flagResume  = flag.Int("resume", 0, "internal: first case to run in the first block")
+	flagSkip    = flag.String("skip", "", "internal: comma separated cases of the first block not to run (already attributed deaths)")
 	flagOnly    = flag.String("only", "", "internal/replay: run exactly <suite>:<block>:<case>")
 	flagSuites  = flag.String("suites", "", "comma separated subset of suites to run (default all)")
 	flagProcs   = flag.Int("procs", 0, "child processes (default min(NumCPU,16))")
+	flagProfile = flag.Bool("allocsite", false, "with -only: profile the measured call and report the function that allocated most")
 )
 
 // A suite is a list of blocks; a block is a deterministic sequence of cases.
@@ -74,6 +76,7 @@ func findSuite(name string) *suite {
 // child side
 
 type violRec struct {
+	Case   int         `json:"case"`
 	Key    string      `json:"key"`
 	Detail string      `json:"detail"`
 	Replay interface{} `json:"replay"`
@@ -81,14 +84,17 @@ type violRec struct {
 }
 
 type blockResult struct {
-	Kind       string           `json:"k"` // "block"
+	Kind       string           `json:"k"` // "part" (more follows for this block) or "block" (block complete)
 	Block      int              `json:"block"`
+	Upto       int              `json:"upto"` // every case of the block with index <= Upto is accounted for
 	Evals      int64            `json:"evals"`
 	Nontrivial int64            `json:"nontrivial"`
 	Distinct   []string         `json:"distinct"` // hex of 8-byte digests
 	Viol       []*violRec       `json:"viol"`
 	Samples    []interface{}    `json:"samples"`
 	Counters   map[string]int64 `json:"counters"`
+	AllocSite  string           `json:"allocsite,omitempty"`
+	CaseNo     int              `json:"caseno"` // index of the first case reported in Viol (for re-runs)
 }
 
 type child struct {
@@ -97,8 +103,12 @@ type child struct {
 	seed     int64
 	journal  []byte // mmap: [0:8] block, [8:16] case, [16:24] phase
 	resume   int
+	skip     map[int]bool
+	out      *bufio.Writer
+	sincePart int
 	only     int // -1 = all
 	describe bool // only produce the description of case `only`, run nothing
+	profile  bool // measure() profiles allocations instead of counting them
 	block    int
 	caseIdx  int
 	res      *blockResult
@@ -109,12 +119,25 @@ type child struct {
 
 // begin starts the next case of the block: returns false if it is to be skipped
 // (before the resume point / not the replayed one). It journals the case first.
+var dbgCase = os.Getenv("C05_DEBUG_CASE") != ""
+var dbgLast time.Time
+
 func (c *child) begin() bool {
+	if dbgCase {
+		if d := time.Since(dbgLast); !dbgLast.IsZero() && d > time.Millisecond {
+			fmt.Fprintf(os.Stderr, "debug: case %d:%d took %v\n", c.block, c.caseIdx-1, d)
+		}
+		dbgLast = time.Now()
+	}
 	idx := c.caseIdx
 	c.caseIdx++
-	if idx < c.resume || (c.only >= 0 && idx != c.only) {
+	if idx < c.resume || (c.only >= 0 && idx != c.only) || c.skip[idx] {
 		return false
 	}
+	if c.sincePart >= 1024 {
+		c.flushPart()
+	}
+	c.sincePart++
 	if c.journal != nil {
 		binary.LittleEndian.PutUint64(c.journal[8:], uint64(idx))
 	}
@@ -150,7 +173,7 @@ func (c *child) violation(key, detail string, replay map[string]interface{}) {
 		replay = map[string]interface{}{}
 	}
 	replay["cmd"] = fmt.Sprintf("worker -only %s:%d:%d -tier %s", c.suite.name, c.block, c.cur(), tierName(c.thorough))
-	v := &violRec{Key: key, Detail: detail, Replay: replay, Count: 1}
+	v := &violRec{Case: c.cur(), Key: key, Detail: detail, Replay: replay, Count: 1}
 	c.violIdx[key] = v
 	c.res.Viol = append(c.res.Viol, v)
 }
@@ -168,6 +191,10 @@ func (c *child) viol(key string, mk func() (string, map[string]interface{})) {
 // measure runs f and returns the bytes of heap allocated meanwhile (TotalAlloc
 // delta). The child is single threaded (GOMAXPROCS=1, no other goroutine allocates).
 func (c *child) measure(f func()) uint64 {
+	if c.profile {
+		c.res.AllocSite = allocSite(f)
+		return 0
+	}
 	runtime.ReadMemStats(&c.m0)
 	f()
 	runtime.ReadMemStats(&c.m1)
@@ -181,19 +208,19 @@ func tierName(th bool) string {
 	return "quick"
 }
 
-func (c *child) startBlock(b int) {
-	c.block = b
-	c.caseIdx = 0
-	c.res = &blockResult{Kind: "block", Block: b, Counters: map[string]int64{}}
-	c.distinct = map[[8]byte]struct{}{}
-	c.violIdx = map[string]*violRec{}
-	if c.journal != nil {
-		binary.LittleEndian.PutUint64(c.journal[0:], uint64(b))
-		binary.LittleEndian.PutUint64(c.journal[8:], ^uint64(0))
+// flushPart sends what has been accumulated for the block so far (everything before
+// the case begun last) to the parent, so that it survives the death of this process.
+func (c *child) flushPart() {
+	if c.out == nil || c.only >= 0 {
+		return
 	}
+	c.res.Kind = "part"
+	c.res.Upto = c.caseIdx - 2 // the case being begun (caseIdx-1) is not covered
+	c.emit()
+	c.resetAcc()
 }
 
-func (c *child) finishBlock(w *bufio.Writer) {
+func (c *child) emit() {
 	for k := range c.distinct {
 		c.res.Distinct = append(c.res.Distinct, fmt.Sprintf("%x", k[:]))
 	}
@@ -202,9 +229,32 @@ func (c *child) finishBlock(w *bufio.Writer) {
 		fmt.Fprintf(os.Stderr, "child: marshal result: %v\n", err)
 		os.Exit(3)
 	}
-	w.Write(b)
-	w.WriteByte('\n')
-	w.Flush()
+	c.out.Write(b)
+	c.out.WriteByte('\n')
+	c.out.Flush()
+}
+
+func (c *child) resetAcc() {
+	c.res = &blockResult{Kind: "block", Block: c.block, Counters: map[string]int64{}}
+	c.distinct = map[[8]byte]struct{}{}
+	c.violIdx = map[string]*violRec{}
+	c.sincePart = 0
+}
+
+func (c *child) startBlock(b int) {
+	c.block = b
+	c.caseIdx = 0
+	c.resetAcc()
+	if c.journal != nil {
+		binary.LittleEndian.PutUint64(c.journal[0:], uint64(b))
+		binary.LittleEndian.PutUint64(c.journal[8:], ^uint64(0))
+	}
+}
+
+func (c *child) finishBlock() {
+	c.res.Kind = "block"
+	c.res.Upto = c.caseIdx - 1
+	c.emit()
 }
 
 func childMain(name string, thorough bool) {
@@ -227,7 +277,7 @@ func childMain(name string, thorough bool) {
 		}
 	}
 	in := bufio.NewScanner(os.Stdin)
-	out := bufio.NewWriterSize(os.Stdout, 1<<16)
+	c.out = bufio.NewWriterSize(os.Stdout, 1<<16)
 	first := true
 	for in.Scan() {
 		var b, only int
@@ -236,14 +286,22 @@ func childMain(name string, thorough bool) {
 			continue
 		}
 		c.resume = 0
+		c.skip = nil
 		if first {
 			c.resume = *flagResume
+			c.skip = map[int]bool{}
+			for _, f := range strings.Split(*flagSkip, ",") {
+				var k int
+				if _, err := fmt.Sscan(f, &k); err == nil {
+					c.skip[k] = true
+				}
+			}
 			first = false
 		}
 		c.only = only
 		c.startBlock(b)
 		s.run(c, b)
-		c.finishBlock(out)
+		c.finishBlock()
 	}
 }
 
@@ -260,6 +318,10 @@ type parent struct {
 	violCnt  map[string]int64
 	samples  map[string]int
 	deaths   int64
+	rerunSeq int64
+	siteMu   sync.Mutex
+	sites    map[string]*siteEntry
+	bySuite  map[string]map[string]int64
 	capped   atomic.Bool
 }
 
@@ -273,13 +335,21 @@ type proc struct {
 	done    chan struct{}
 }
 
-func (p *parent) spawn(s *suite, id int, resume int) (*proc, error) {
+func (p *parent) spawn(s *suite, id int, resume int, skip []int) (*proc, error) {
+	skipArg := "-"
+	if len(skip) > 0 {
+		var ss []string
+		for _, k := range skip {
+			ss = append(ss, fmt.Sprint(k))
+		}
+		skipArg = strings.Join(ss, ",")
+	}
 	j := filepath.Join(p.tmp, fmt.Sprintf("journal-%s-%d", s.name, id))
 	if err := os.WriteFile(j, make([]byte, 64), 0o600); err != nil {
 		return nil, err
 	}
-	args := fmt.Sprintf("ulimit -v %d; exec \"$0\" -child %s -journal %s -resume %d -tier %s",
-		s.memKiB, s.name, j, resume, tierName(p.thorough))
+	args := fmt.Sprintf("ulimit -v %d; exec \"$0\" -child %s -journal %s -resume %d -skip %s -tier %s",
+		s.memKiB, s.name, j, resume, skipArg, tierName(p.thorough))
 	cmd := exec.Command("sh", "-c", args, p.exe)
 	cmd.Env = append(os.Environ(), "GOMAXPROCS=1", "GOTRACEBACK=all")
 	stdin, err := cmd.StdinPipe()
@@ -349,7 +419,17 @@ var fatalRe = regexp.MustCompile(`(?m)^(fatal error: .*|runtime: .*|panic: .*|si
 // traceback, plus its caller when that is informative.
 func siteFromTrace(trace string) string {
 	var frames []string
-	for _, line := range strings.Split(trace, "\n") {
+	lines := strings.Split(trace, "\n")
+	// when a recovered panic was re-raised (framer.parseFrame does that for runtime
+	// errors) the original site is below the last panic frame
+	last := -1
+	for i, line := range lines {
+		if strings.HasPrefix(line, "panic(") || strings.HasPrefix(line, "runtime.gopanic(") {
+			last = i
+		}
+	}
+	lines = lines[last+1:]
+	for _, line := range lines {
 		if line == "" || line[0] == '\t' || line[0] == ' ' {
 			continue
 		}
@@ -365,7 +445,7 @@ func siteFromTrace(trace string) string {
 			continue
 		}
 		fn = strings.TrimPrefix(fn, pfx)
-		if strings.HasPrefix(fn, "VerifC05") {
+		if strings.Contains(fn, "erifC05") {
 			if len(frames) > 0 {
 				break
 			}
@@ -405,6 +485,9 @@ func panicClass(msg string) string {
 		msg = msg[:i]
 	}
 	msg = numRe.ReplaceAllString(msg, "")
+	if w := strings.Fields(msg); len(w) > 7 {
+		msg = strings.Join(w[:7], " ")
+	}
 	if len(msg) > 60 {
 		msg = msg[:60]
 	}
@@ -426,6 +509,11 @@ func (p *parent) merge(s *suite, br *blockResult) {
 	if s.deciding {
 		p.r.AddCounts(br.Evals, ds)
 	}
+	for _, v := range br.Viol {
+		if strings.HasPrefix(v.Key, "alloc?:") {
+			v.Key = fmt.Sprintf("alloc:%s:exceeds-1MiB+64n", p.allocSiteFor(s, strings.TrimPrefix(v.Key, "alloc?:"), br.Block, v.Case))
+		}
+	}
 	p.mu.Lock()
 	p.counters[s.name+".cases"] += br.Evals
 	p.counters[s.name+".nontrivial"] += br.Nontrivial
@@ -434,6 +522,10 @@ func (p *parent) merge(s *suite, br *blockResult) {
 	}
 	for _, v := range br.Viol {
 		p.violCnt[v.Key] += v.Count
+		if p.bySuite[s.name] == nil {
+			p.bySuite[s.name] = map[string]int64{}
+		}
+		p.bySuite[s.name][v.Key] += v.Count
 	}
 	take := p.samples[s.name] < 3
 	if take && len(br.Samples) > 0 {
@@ -444,11 +536,10 @@ func (p *parent) merge(s *suite, br *blockResult) {
 		p.r.Sample(map[string]interface{}{"suite": s.name, "case": br.Samples[0]})
 	}
 	for _, v := range br.Viol {
-		key := v.Key
 		if !s.deciding {
-			key = "supplementary:" + key
+			v.Detail = "[found by the NON-DECIDING supplementary pass] " + v.Detail
 		}
-		p.r.Violation(key, v.Detail, v.Replay)
+		p.r.Violation(v.Key, v.Detail, v.Replay)
 	}
 }
 
@@ -487,10 +578,18 @@ func (p *parent) runSuite(s *suite, nproc int, deadline time.Time) {
 				}
 				resume := 0
 				restarts := 0
+				var skip []int
+				bt0 := time.Now()
+				dbg := func() {
+					if d := time.Since(bt0); os.Getenv("C05_DEBUG") != "" && d > time.Second {
+						fmt.Fprintf(os.Stderr, "debug: %s block %d took %v restarts=%d\n", s.name, b, d, restarts)
+					}
+				}
+			attempts:
 				for { // until block b is complete
 					if pr == nil {
 						var err error
-						pr, err = p.spawn(s, id, resume)
+						pr, err = p.spawn(s, id, resume, skip)
 						if err != nil {
 							p.r.Infra("cannot start child for %s: %v", s.name, err)
 							return
@@ -498,25 +597,35 @@ func (p *parent) runSuite(s *suite, nproc int, deadline time.Time) {
 					}
 					fmt.Fprintf(pr.stdin, "%d -1\n", b)
 					pr.stdin.Flush()
-					var line []byte
 					var ok, timedOut bool
-					select {
-					case line, ok = <-pr.lines:
-					case <-time.After(blockTimeout):
-						timedOut = true
-					}
-					if ok {
+					for {
+						var line []byte
+						timer := time.NewTimer(blockTimeout)
+						select {
+						case line, ok = <-pr.lines:
+						case <-timer.C:
+							timedOut = true
+						}
+						timer.Stop()
+						if !ok {
+							break
+						}
 						var br blockResult
 						if err := json.Unmarshal(line, &br); err != nil || br.Block != b {
 							p.r.Infra("%s: bad result line from child for block %d: %v", s.name, b, err)
 							pr.kill()
 							pr = nil
-							break
+							break attempts
 						}
 						p.merge(s, &br)
-						break
+						resume = br.Upto + 1
+						if br.Kind == "block" {
+							dbg()
+							break attempts
+						}
 					}
 					// the child died or hangs inside a case
+					td0 := time.Now()
 					if timedOut {
 						pr.kill()
 					} else {
@@ -525,15 +634,22 @@ func (p *parent) runSuite(s *suite, nproc int, deadline time.Time) {
 					jb, jc := pr.readJournal()
 					stderr := pr.stderr.String()
 					pr = nil
-					if jb != int64(b) || jc < 0 || jc == int64(^uint64(0)>>1) || uint64(jc) == ^uint64(0) {
+					td1 := time.Now()
+					if jb != int64(b) || jc < 0 || int(jc) < resume {
 						p.r.Infra("%s: child failed outside a case (block %d, journal %d:%d, timeout=%v): %s",
 							s.name, b, jb, jc, timedOut, tail(stderr, 600))
 						break
 					}
 					atomic.AddInt64(&p.deaths, 1)
 					p.attribute(s, b, int(jc), timedOut, stderr)
-					resume = int(jc) + 1
+					if s.deciding {
+						p.r.AddCounts(1, nil) // the case itself was evaluated
+					}
+					skip = append(skip, int(jc))
 					restarts++
+					if os.Getenv("C05_DEBUG") != "" {
+						fmt.Fprintf(os.Stderr, "debug: death wait=%v attribute=%v sinceblockstart=%v\n", td1.Sub(td0), time.Since(td1), time.Since(bt0))
+					}
 					if restarts > 100000 {
 						p.r.Infra("%s: block %d: too many child deaths", s.name, b)
 						break
@@ -572,6 +688,41 @@ func tail(s string, n int) string {
 	return s
 }
 
+// allocSiteFor resolves which driver function allocated most in a case that broke the
+// allocation bound, by re-running that one case in a child with every allocation
+// profiled. One re-run per provisional key (CQL kind -> Go target, or frame shape).
+func (p *parent) allocSiteFor(s *suite, prov string, b, cs int) string {
+	k := s.name + "|" + prov
+	p.siteMu.Lock()
+	e, ok := p.sites[k]
+	if !ok {
+		e = &siteEntry{}
+		p.sites[k] = e
+	}
+	p.siteMu.Unlock()
+	e.once.Do(func() { e.site = p.resolveAllocSite(s, prov, b, cs) })
+	return e.site
+}
+
+type siteEntry struct {
+	once sync.Once
+	site string
+}
+
+func (p *parent) resolveAllocSite(s *suite, prov string, b, cs int) string {
+	site := "unresolved(" + prov + ")"
+	cmd := exec.Command("sh", "-c", fmt.Sprintf("ulimit -v %d; exec \"$0\" -only %s:%d:%d -allocsite -tier %s",
+		s.memKiB, s.name, b, cs, tierName(p.thorough)), p.exe)
+	cmd.Env = append(os.Environ(), "GOMAXPROCS=1")
+	if out, err := cmd.Output(); err == nil {
+		var br blockResult
+		if json.Unmarshal(out, &br) == nil && br.AllocSite != "" {
+			site = br.AllocSite
+		}
+	}
+	return site
+}
+
 var describeMu sync.Mutex
 
 // describeCase re-enumerates block b in this process up to case cs and returns its
@@ -595,8 +746,7 @@ func describeCase(s *suite, b, cs int, thorough bool) (desc string) {
 // case and not to the machine; a hang must reproduce three times.
 func (p *parent) attribute(s *suite, b, cs int, hang bool, stderr string) {
 	replay := map[string]interface{}{
-		"cmd":  fmt.Sprintf("worker -only %s:%d:%d -tier %s", s.name, b, cs, tierName(p.thorough)),
-		"case": describeCase(s, b, cs, p.thorough),
+		"cmd": fmt.Sprintf("worker -only %s:%d:%d -tier %s", s.name, b, cs, tierName(p.thorough)),
 	}
 	reruns := 1
 	if hang {
@@ -637,18 +787,29 @@ func (p *parent) attribute(s *suite, b, cs int, hang bool, stderr string) {
 	}
 	site := siteFromTrace(mainGoroutine(stderr))
 	key := fmt.Sprintf("fatal:%s:%s", site, cls)
-	if !s.deciding {
-		key = "supplementary:" + key
+	if cls == "out-of-memory" {
+		// running out of the child's address space is the allocation bound exceeded a
+		// fortiori: same finding as a measured excess at that site
+		key = fmt.Sprintf("alloc:%s:exceeds-1MiB+64n", site)
 	}
 	p.mu.Lock()
 	p.violCnt[key]++
+	if p.bySuite[s.name] == nil {
+		p.bySuite[s.name] = map[string]int64{}
+	}
+	p.bySuite[s.name][key]++
+	first := p.violCnt[key] == 1
 	p.mu.Unlock()
+	if !first {
+		return
+	}
+	replay["case"] = describeCase(s, b, cs, p.thorough)
 	p.r.Violation(key, fmt.Sprintf("child process died in %s case %d:%d (%v): %s\n%s", s.name, b, cs, replay["case"], what, head(mainGoroutine(stderr), 1500)), replay)
 }
 
 // rerunOne runs a single case in a fresh child.
 func (p *parent) rerunOne(s *suite, b, cs int) (died, hung bool, stderr string, desc string) {
-	pr, err := p.spawn(s, 1000+int(atomic.AddInt64(&p.deaths, 0)%1000), 0)
+	pr, err := p.spawn(s, 1000+int(atomic.AddInt64(&p.rerunSeq, 1)), 0, nil)
 	if err != nil {
 		return false, false, "", ""
 	}
@@ -705,9 +866,10 @@ func main() {
 		os.Exit(r.Finish(false))
 	}
 	defer os.RemoveAll(tmp)
+	os.Setenv("C05_CACHE_DIR", tmp)
 
 	p := &parent{r: r, exe: exe, tmp: tmp, thorough: thorough,
-		counters: map[string]int64{}, violCnt: map[string]int64{}, samples: map[string]int{}}
+		counters: map[string]int64{}, violCnt: map[string]int64{}, samples: map[string]int{}, sites: map[string]*siteEntry{}, bySuite: map[string]map[string]int64{}}
 	nproc := *flagProcs
 	if nproc <= 0 {
 		nproc = runtime.NumCPU()
@@ -715,7 +877,7 @@ func main() {
 			nproc = 16
 		}
 	}
-	budget := 80 * time.Second
+	budget := 85 * time.Second
 	if thorough {
 		budget = 14 * time.Minute
 	}
@@ -746,9 +908,30 @@ func main() {
 		p.runSuite(s, nproc, deadline)
 		r.Extra("wall_s."+s.name, float64(time.Since(t0).Milliseconds())/1000)
 		if !s.deciding {
-			supp[s.name] = "NON-DECIDING supplementary pass (deterministic pseudo-random bytes from VERIF_SEED); can only add findings; not part of the exhaustive claim or of evaluations/distinct_nontrivial"
+			supp[s.name] = map[string]interface{}{"note": "NON-DECIDING supplementary pass (deterministic pseudo-random bytes from VERIF_SEED); can only add findings; not part of the exhaustive claim or of evaluations/distinct_nontrivial"}
 		}
 		_ = rules
+	}
+	for name, info := range supp {
+		m := info.(map[string]interface{})
+		var keys, only []string
+		for k := range p.bySuite[name] {
+			keys = append(keys, k)
+			found := false
+			for other, ks := range p.bySuite {
+				if other != name && ks[k] > 0 {
+					found = true
+				}
+			}
+			if !found {
+				only = append(only, k)
+			}
+		}
+		sort.Strings(keys)
+		sort.Strings(only)
+		m["cases"] = p.counters[name+".cases"]
+		m["finding_keys"] = keys
+		m["finding_keys_not_found_by_the_deciding_suites"] = only
 	}
 	counters := map[string]int64{}
 	for k, v := range p.counters {
@@ -772,7 +955,9 @@ func main() {
 		r.Extra("finding_case_counts", l)
 	}
 	r.SetRule(strings.Join(ruleParts, " || "))
-	os.Exit(r.Finish(!p.capped.Load()))
+	code := r.Finish(!p.capped.Load())
+	os.RemoveAll(tmp)
+	os.Exit(code)
 }
 
 var ruleParts []string
@@ -795,7 +980,7 @@ func replayOne(spec string, thorough bool) {
 		os.Exit(2)
 	}
 	runtime.GOMAXPROCS(1)
-	c := &child{suite: s, thorough: thorough, only: cs}
+	c := &child{suite: s, thorough: thorough, only: cs, profile: *flagProfile}
 	fmt.Sscan(os.Getenv("VERIF_SEED"), &c.seed)
 	c.startBlock(b)
 	s.run(c, b)
